@@ -3,10 +3,11 @@ import Rare.Gen.C14
 /-!
 # C14 – Renderers never crash and draw quantities proportionally within bounds
 
-Property theorems about `Rare/Model/C14.lean`, the model of the code AFTER the repairs
+Property theorems about `Rare/Model/C14.lean` (+ `C14Format.lean`), the model of the code AFTER the repairs
 b2c2a9f (stacked bars, running maximum 0), 7206d40 (bar length overflow), 0b7fa09 (stacked bar with
 negative values), a20c03a (aliased value slices), b1ca348 (heatmap header loop), 9780d5d (spark with
-no columns), 6408ebf (inverted remapped range).
+no columns), 6408ebf (inverted remapped range), c54b92c (sparkline header measured in bytes),
+73473fc (reduce table: group key with more parts than group columns).
 
 Numbers: `float64` is instantiated with ℚ (`ratArith L2 L10`): exact conversion `int64 → float64`
 (true for |v| < 2^53), exact `+ - * /`, abstract logarithms that are only assumed monotone and
@@ -15,7 +16,13 @@ argument `≤ 1` to 0 itself).  IEEE rounding is covered by the correspondence r
 instantiates the same model with `Float`) – level *partial* for that gap, as planned in DESIGN.md.
 
 Tables and constants are the regenerated ones (`Rare.Gen.C14`): `tables_match_source` pins the
-hand copies used by the model to them, `bucket_in_range` is stated over the generated call-site list.
+hand copies used by the model to them, `bucket_in_range` is stated over the generated call-site list,
+`guards_match_source` / `render_code_matches_source` pin guard chains, formatter call arguments, the
+closure of `termformat.FromExpression`, the reduce-table guard and the sparkline header measure.
+
+Sections: ties to the source · scaler laws · bars · layout (header loop, cells) · table columns line up
+(every `WriteRow`/`WriteFooter` sequence) · formatters and displayed numbers · data table / reduce table ·
+heatmap and sparkline as whole renderers · "(n more)" arithmetic · non-vacuity examples.
 -/
 namespace Rare.C14
 open Rare Rare.C20
@@ -326,6 +333,15 @@ theorem reduce_render_ok (env : Env) (r : Reduce) (vt : VirtualTerm) (hinv : Tab
 
 /-! ## heatmap and sparkline as whole renderers -/
 
+/-- the sparkline header (after c54b92c): when the first and the last displayed column name fit next to
+each other, `First...Last` is exactly as wide as the sparkline below it – one cell per displayed column –
+so the last name ends above the last column, for multi-byte names and names with colour sequences too
+(before the repair the names were measured in bytes) -/
+theorem spark_header_spans_columns (env : Env) (names : List Bytes) (ht : Terminated env names.head!)
+    (hfit : strLen env names.head! + strLen env names.getLast! < names.length) :
+    strLen env (sparkHeaderText env names) = names.length :=
+  spark_header_spans env names ht hfit
+
 /-- a heatmap cell and a sparkline glyph are one visible cell wide, colour and ASCII modes, unicode on or off -/
 theorem cells_one_wide (env : Env) (c : Bytes) : (IsHeatCell env c → strLen env c = 1) ∧ (IsSparkGlyph c → strLen env c = 1) :=
   ⟨heatCell_width env c, sparkGlyph_width env c⟩
@@ -423,6 +439,9 @@ example : ∃ d, DataTable.new 10 20 true true = .ok d ∧ d.table.maxRows = d.n
   ⟨_, rfl, by decide, by decide, by decide⟩
 example : ∃ s, Spark.new 20 10 .linear .hi = .ok s ∧ s.table.maxRows = s.rowCount + 1 ∧ 0 ≤ s.rowCount ∧ 0 ≤ s.colCount :=
   ⟨_, rfl, by decide, by decide, by decide⟩
+/-- eight columns named 日本1 … 日本8: the header is 8 cells wide (it was 6 when names were measured in bytes) -/
+example : strLen ⟨false, true⟩ (sparkHeaderText ⟨false, true⟩ ((List.range 8).map fun i => [0xe6, 0x97, 0xa5, 0xe6, 0x9c, 0xac, UInt8.ofNat (49 + i)])) = 8 := by
+  decide +kernel
 /-- what `heat_render_ok` says of a drawn row: key, blanks, one cell per displayed column (here one, ASCII mode) -/
 example : IsHeatRow ⟨false, false⟩ (ascii "r0") 1 (ascii "r0 3") :=
   ⟨1, [ascii "3"], by decide +kernel, rfl, by intro c hc; simp at hc; subst hc; exact Or.inl (by decide +kernel)⟩
